@@ -1746,8 +1746,18 @@ class EntityTemplate(Block):
             return obj
 
         for ctx in self.all_contexts():
-            current_ctx = ctx
-            ctx.visit_objects(check_usage)
+            always_expr = getattr(ctx, "_always_expr", None)
+
+            if always_expr is None:
+                current_ctx = ctx
+                ctx.visit_objects(check_usage)
+            else:
+                # the always expression of a sequential context is a concurrent block
+                # outside of the generated process, it is checked like a separate context
+                current_ctx = ctx
+                ctx.code().visit_objects(check_usage)
+                current_ctx = always_expr
+                always_expr.code().visit_objects(check_usage)
 
         for block in self.all_blocks():
             if isinstance(block, Entity):
